@@ -340,7 +340,7 @@ static void roll_case(int si, uint64_t c, int thorough)
                 uint32_t eidx = n;
                 for (uint32_t i = w; i < n; i++) if (((uint32_t) ref_rolling_hash(stream + i + 1, w) & mask) == trigger) { eidx = i; break; }
                 uint64_t eh = ref_rolling_hash(stream + (eidx < n ? eidx + 1 : n), w);
-                for (int k = 0; k < 3; k++) {
+                for (int k = 0; k < (g_noarch ? 1 : 3); k++) {
                         uint32_t idx = w;
                         LABEL("rolling run_until_%s direct w=%u n=%u", scans[k].name, w, n);
                         uint64_t hh = ((until_f) scans[k].f)(&idx, (int) n, st->table1, st->table2, stream + w, stream, h0, mask, trigger);
